@@ -37,8 +37,16 @@ import (
 //verif:stub os.Stat
 func vrStat(name string) (os.FileInfo, error) { return nil, errors.New("no such file") }
 
+// the few plain files a re-attach reads (H_C15_reattachText)
+var vrFiles map[string]string
+
 //verif:stub os.ReadFile
-func vrReadFile(name string) ([]byte, error) { return nil, os.ErrNotExist }
+func vrReadFile(name string) ([]byte, error) {
+	if text, ok := vrFiles[name]; ok {
+		return []byte(text), nil
+	}
+	return nil, os.ErrNotExist
+}
 
 // directories are created for forks that turn out to be empty (disabled)
 //
@@ -2683,4 +2691,65 @@ func H_C01_wholeCall(form int) {
 	}
 	wantO := vrCat([]byte(`{"r":`), r, []byte(`,"t":`), t, []byte(`}`))
 	verifAssert(verifBytesEq(vrEncode(outs), wantO), "C01: a whole call returned as a struct records the declared members only")
+}
+
+const vrReattachSrc = `
+stage GEN(
+    in  int n,
+    out int v,
+    src comp "bin",
+)
+
+pipeline P(
+    in  int n,
+    out int v,
+)
+{
+    call GEN(
+        n = self.n,
+    )
+
+    return (
+        v = GEN.v,
+    )
+}
+`
+
+var vrReattachCalls = []struct {
+	text string
+	same bool
+}{
+	{"call P(\n    n = 3,\n)\n", true},
+	{"# run three\ncall P(\n    n = 3,\n)\n", true},   // a comment
+	{"call P(n = 3,)\n", true},                          // formatting
+	{"\ncall P(\n    n = 3,\n)\n\n", true},          // blank lines
+	{"call P(\n    n = 4,\n)\n", false},               // an argument value
+	{"call P(\n    n = 2,\n)\n", false},               // another argument value
+}
+
+// H_C15_reattachText(v): the real Runtime.reattachToPipestance (read-only, as
+// mrp --inspect and the equivalence check of a read-write attach do) with a
+// supplied invocation whose call statement is variant v of the recorded
+// `call P(n = 3,)`; the recorded _invocation and _mrosource are on the (model)
+// disk.
+//
+//	C15: re-attach succeeds when the supplied invocation differs only in
+//	     comments or formatting, and is refused when an argument value differs.
+func H_C15_reattachText(v int) {
+	disableUniquification = false
+	rt := &Runtime{Config: &RuntimeOptions{JobMode: "local", VdrMode: VdrDisable}, mrjob: "/m/mrjob", adaptersPath: "/m/adapters"}
+	old := vrReattachSrc + "\n" + vrReattachCalls[0].text
+	vrFiles = map[string]string{
+		"/ps/_invocation": old,
+		"/ps/_mrosource":  old,
+	}
+	neu := vrReattachSrc + "\n" + vrReattachCalls[v].text
+	ps, err := rt.reattachToPipestance("ps", "/ps", neu, "/m/p.mro", nil, "none", nil, true, true, InvocationFile, context.Background())
+	vrFiles = nil
+	verifCover("re-attach with an edited invocation text")
+	if vrReattachCalls[v].same {
+		verifAssert(err == nil && ps != nil, "C15: re-attach succeeds when the supplied invocation differs from the recorded one only in comments or formatting")
+	} else {
+		verifAssert(err != nil, "C15: re-attach is refused when an argument value of the invocation changed")
+	}
 }
